@@ -42,17 +42,19 @@ JPair(r) ==
 
 JRepair(r) ==
     IF ~NoMixed(r.v) THEN Skip
-    ELSE Verdict(<<
-        <<"C10:repair_accepts_matching_length", r.repair.ok>>,
+    ELSE LET fits == Len(r.ops) = Len(r.v) IN      \* one operation per character (in the segmentation mode of the call)
+      Verdict(<<
+        <<"C10:repair_accepts_matching_length", fits => r.repair.ok>>,
         <<"C10:repair_only_touches_whitespace",
-            r.repair.ok => SelectSeq(r.repair.cps, LAMBDA x : x \notin WsIds(r.v)) = Cps(NoWs(r.v))>>,
+            (fits /\ r.repair.ok) => SelectSeq(r.repair.cps, LAMBDA x : x \notin WsIds(r.v)) = Cps(NoWs(r.v))>>,
         <<"C10:all_keep_is_identity",
-            (r.repair.ok /\ \A k \in 1..Len(r.ops) : r.ops[k] = "k") => r.repair.cps = Cps(r.v)>>,
-        <<"C10:length_mismatch_is_an_error", r.mismatch = "err">>
+            (fits /\ r.repair.ok /\ \A k \in 1..Len(r.ops) : r.ops[k] = "k") => r.repair.cps = Cps(r.v)>>,
+        <<"C10:length_mismatch_is_an_error", /\ (~fits => ~r.repair.ok)
+                                             /\ (Len(r.ops) + 1 # Len(r.v) => r.mismatch = "err")>>
       >>,
-      IF r.repair.ok /\ r.repair.cps # Cps(Repair(r.v, r.ops)) THEN <<"repair_differs_from_fold">> ELSE <<>>,
+      IF fits /\ r.repair.ok /\ r.repair.cps # Cps(Repair(r.v, r.ops)) THEN <<"repair_differs_from_fold">> ELSE <<>>,
       FALSE,
-      \E k \in 1..Len(r.ops) : r.ops[k] # "k")
+      fits /\ \E k \in 1..Len(r.ops) : r.ops[k] # "k")
 
 JCorrupt(r) ==
     IF ~(NoMixed(r.tv) /\ IsClean(r.tv)) THEN Skip
